@@ -88,4 +88,16 @@ Section Compaction.
     else if c_maxamp cfg <? pct (eligible ll) (base_size ll) then (Some (major cfg ll), mcl)
     else minor cfg ll mcl.
 
+  (* the loop of the compaction task in db.go ("run compact steps until there is no changeset") when no flush
+     interferes; None = fuel exhausted *)
+  Fixpoint compact_loop (fuel : nat) (cfg : ccfg) (mcl : nat) (ll : levels) : option (levels * nat) :=
+    match fuel with
+    | O => None
+    | S f =>
+        match compact cfg mcl ll with
+        | (None, m) => Some (ll, m)
+        | (Some cs, m) => compact_loop f cfg m (apply_cs cs ll)
+        end
+    end.
+
 End Compaction.
